@@ -95,6 +95,13 @@ pub fn gen_case(ch: &mut Chooser) -> Case {
         let (peek2_i, peek2_e) = nm("peek-again");
         body.push(dp(&peek2_i, &[], vec![var("count")]));
         let mut exports = vec![(next_i.clone(), next_e), (peek_i.clone(), peek_e), (useh_i, useh_e), (leak_i, leak_e), (gets_i, gets_e), (peek2_i, peek2_e)];
+        // an external name that is also the name of an unexported internal binding: (rename next helper) publishes
+        // next under the name helper; the library's own helper is untouched
+        if n_libs == 1 && ch.chance(1, 3) {
+            exports.push((next_i.clone(), "helper".to_string()));
+            exports.push((peek_i.clone(), "count".to_string()));
+            labels.push("external-name-equals-internal-name");
+        }
         // one binding published under two external names (adjacent or separated in the export list)
         match ch.below(4) {
             0 => {
@@ -278,7 +285,7 @@ pub fn judge(c: &Case) -> Report {
         rep.label(*l);
     }
     rep.label(if c.as_files { "files" } else { "registered" });
-    rep.nontrivial = c.labels.iter().any(|l| matches!(*l, "collision-with-internal" | "redefine-imported" | "state-through-two-paths" | "two-import-sets-of-one-library" | "failed-import-in-history" | "binding-exported-twice" | "import-declaration-after-body-part"));
+    rep.nontrivial = c.labels.iter().any(|l| matches!(*l, "collision-with-internal" | "redefine-imported" | "state-through-two-paths" | "two-import-sets-of-one-library" | "failed-import-in-history" | "binding-exported-twice" | "import-declaration-after-body-part" | "external-name-equals-internal-name"));
     let obs = run_case(c);
     rep.note = obs_text(&obs);
     match compare_machine(&c.program, &obs, model_machine(c, false)) {
